@@ -68,8 +68,24 @@ def h265_key(rng, sc=None):
     vps = bytes([0x40, 0x01]) + nal_body(rng, rng.randrange(0, 2) if short else rng.randrange(2, 8))
     sps = bytes([0x42, 0x01]) + nal_body(rng, rng.randrange(0, 2) if short else rng.randrange(2, 20))
     pps = bytes([0x44, 0x01]) + nal_body(rng, rng.randrange(0, 2) if short else rng.randrange(1, 5))
-    idr = bytes([0x26, 0x01]) + nal_body(rng, rng.randrange(1, 40))
+    # the random-access picture: IDR_W_RADL mostly, now and then any other IRAP type (BLA 16-18, IDR_N_LP 20, CRA 21)
+    irap = 19 if rng.random() < 0.6 else rng.choice([16, 17, 18, 20, 21, 21])
+    idr = bytes([irap << 1, 0x01]) + nal_body(rng, rng.randrange(1, 40))
     return b"".join(sc() + p for p in [vps, sps, pps, idr])
+
+
+def h265_irap(rng, sc=None):
+    """a later random-access frame without parameter sets (what a caller flags as a key frame)"""
+    sc = sc or (lambda: rng.choice([SC3, SC4]))
+    return sc() + bytes([rng.choice([16, 17, 18, 19, 20, 21, 21]) << 1, 0x01]) + nal_body(rng, rng.randrange(1, 40))
+
+
+def config_without_key_slice(rng, codec):
+    """a frame that carries the parameter sets but no IDR / IRAP slice (H.264 / H.265)"""
+    if codec == "h264":
+        return SC4 + bytes([0x67, 0x42, 0x00, 0x1E]) + nal_body(rng, 4) + SC4 + bytes([0x68, 0xCE, 0x38, 0x80]) + SC3 + bytes([0x41, 0x9A]) + nal_body(rng, 6)
+    return (SC4 + bytes([0x40, 0x01, 0x0C]) + SC4 + bytes([0x42, 0x01, 0x01, 0x60]) + SC4 + bytes([0x44, 0x01, 0xC1]) +
+            SC3 + bytes([0x02, 0x01]) + nal_body(rng, 6))
 
 
 def h265_delta(rng, sc=None):
@@ -336,13 +352,20 @@ def gen_history(rng, dist, codec=None, audio=None, fast=None, md=None, nv=None, 
             if i + 2 < nv:
                 pts[i], pts[i + 1], pts[i + 2] = dts[i + 2], dts[i], dts[i + 1]
             i += 3
-        if rng.random() < 0.3:
+        r3 = rng.random()
+        if r3 < 0.3:
             pts = [p + 2 * step for p in pts]  # positive offset on every frame
+        elif r3 < 0.45:
+            # decode times run AHEAD of the presentation times: the first frame is presented before it is decoded
+            dts = [d + rng.choice([1, 2]) * step for d in dts]
+            dist["first_frame_pts_before_dts"] += 1
     else:
         pts = list(dts)
     for i in range(nv):
         key = i == 0 or rng.random() < 0.15
         data = key_frame(rng, codec) if i == 0 else (key_frame(rng, codec) if key and rng.random() < 0.5 else delta_frame(rng, codec))
+        if i > 0 and key and codec == "h265" and rng.random() < 0.6:
+            data = h265_irap(rng)
         if reorder or rng.random() < 0.3:
             vops.append(("v", dts[i], "wvd %s %s %s %d" % (f64bits(pts[i]), f64bits(dts[i]), hx(data), 1 if key else 0)))
         else:
@@ -413,6 +436,8 @@ def gen_conv_history(rng, dist, codec=None, audio=None, fast=None, finish="fins"
     for i in range(nv):
         ms = rng.choice([33, 40, 16, 1001, 1, 100])
         f = key_frame(rng, codec) if i == 0 or rng.random() < 0.15 else delta_frame(rng, codec)
+        if i == 0 and codec in ("h264", "h265") and rng.random() < 0.08:
+            ev.append((tv, "ev %s %d" % (hx(config_without_key_slice(rng, codec)), ms)))     # refused: not a key frame
         if codec in ("h264", "h265") and (f.endswith(SC3) or f.endswith(b"\x00")):
             f = f.rstrip(b"\x00") + b"\x80" if not f.endswith(SC3) else f[:-3]
         ev.append((tv, "ev %s %d" % (hx(f), ms)))
@@ -810,8 +835,11 @@ def contract_history(rng, dist, codec, audio, maxlen=12, with_enc=True):
                 return key_frame(rng, codec), 1 if rng.random() < 0.9 else 0
             if k < 0.85:
                 return delta_frame(rng, codec), 0 if rng.random() < 0.9 else 1
-            if k < 0.91:
+            if k < 0.89:
                 return bytes(rng.randrange(256) for _ in range(rng.randrange(1, 12))), rng.randrange(2)
+            if k < 0.91 and codec in ("h264", "h265"):
+                # parameter sets but no IDR / IRAP slice: configuration present, not a key frame
+                return config_without_key_slice(rng, codec), rng.randrange(2)
             if k < 0.93:
                 # nothing but start codes / zero bytes
                 return rng.choice([SC3, SC4, SC3 + SC4, SC4 + SC3, bytes(2), bytes(3), SC3 + b"\x00"]), rng.randrange(2)
@@ -917,6 +945,10 @@ def frag_cfg(rng, dist):
     return c
 
 
+FOURCC_TICKS = [int.from_bytes(t, "big") << sh for t in (b"trun", b"moof", b"mdat", b"tfdt", b"traf", b"mfhd", b"tfhd", b"moov", b"stco", b"stsz")
+                for sh in (0, 8, 32)]
+
+
 def frag_ops(rng, dist, maxlen=60, steps=None, start=None, reorder=None, queries=True, reject_rate=0.08):
     n = rng.randrange(1, maxlen)
     step = rng.choice([3000, 3003, 1500, 1]) if steps is None else steps
@@ -925,6 +957,10 @@ def frag_ops(rng, dist, maxlen=60, steps=None, start=None, reorder=None, queries
         # timelines that cross a power-of-two boundary of the DTS within a few samples
         dts = max(0, (1 << rng.choice([31, 32, 32, 32, 33, 40])) * rng.choice([1, 1, 2, 3]) - rng.randrange(0, 6) * step - rng.randrange(0, 2))
         dist["frag_start=near_pow2"] += 1
+    elif start is None and rng.random() < 0.08:
+        # a decode time whose bytes spell a box type ("trun", "moof", "mdat", ... also shifted): nothing may find a box by scanning for its name
+        dts = rng.choice(FOURCC_TICKS)
+        dist["frag_start=fourcc_bytes"] += 1
     vfr = rng.random() < 0.3 and steps is None
     reorder = (rng.random() < 0.3) if reorder is None else reorder
     ops = []
@@ -1004,8 +1040,25 @@ def frag_smallscope(tier, dist, L=None):
     return out
 
 
+def frag_long_cases(rng, dist):
+    """fragments of more than a hundred samples (queue growth / reuse thresholds at powers of two), followed by
+    short fragments and an empty flush"""
+    out = []
+    for cnt in (127, 128, 129, 130, 200, 257):
+        ops, dts = [], rng.choice([0, 90000])
+        for seg in (cnt, 3, 0, 2):
+            for i in range(seg):
+                ops.append("fw %d %d %s %d" % (dts + (3000 if i % 3 == 1 else 0), dts, hx(bytes([(i * 7 + seg) & 0xFF, i & 0xFF])), 1 if i == 0 else 0))
+                dts += 3000
+            ops.append("fflush")
+        ops.append("finitfresh")
+        out.append(fcase("w=640 h=480 ts=90000 fd=2000 sps=6742001e pps=68ce3880", ops))
+        dist["frag_long_fragment"] += 1
+    return out
+
+
 def gen_C10(rng, tier, dist):
-    out = frag_smallscope(tier, dist)
+    out = frag_smallscope(tier, dist) + frag_long_cases(rng, dist)
     n = 1000 if tier == "quick" else 60000
     for _ in range(n):
         out.append(fcase(frag_cfg(rng, dist), frag_ops(rng, dist)))
@@ -1029,7 +1082,7 @@ def gen_C10(rng, tier, dist):
 
 
 def gen_C11(rng, tier, dist):
-    out = frag_smallscope(tier, dist, L=4 if tier == "quick" else 6)
+    out = frag_smallscope(tier, dist, L=4 if tier == "quick" else 6) + frag_long_cases(rng, dist)
     n = 800 if tier == "quick" else 50000
     for _ in range(n):
         k = rng.random()
